@@ -27,6 +27,9 @@ ASSUMPTIONS = [
 ]
 
 
+from .common_node import clock_sources, clock_agreement
+
+
 def run(ctx: Ctx):
     model = ctx.model
     T = TimerTable(ctx)
@@ -169,7 +172,7 @@ def run(ctx: Ctx):
             v = ld[0].ast.value
             if f is rdwa and model.try_fold(v, pc.module, pc) != 0:
                 ctx.fail(cons, gf.loc(ld[0]), "reset_last_dwa must zero _last_dwr (DWA wait clock keeps running)")
-            if f is rdwr and "time.time()" not in ast.unparse(v):
+            if f is rdwr and not clock_sources(model, pc.module, v, pc):
                 ctx.fail(cons, gf.loc(ld[0]), "reset_last_dwr must store the current time")
     # receive_dwa -> reset_last_dwa
     rd = nc.methods.get("receive_dwa")
@@ -207,7 +210,7 @@ def run(ctx: Ctx):
             continue
         rets = [n for n in ast.walk(f.node) if isinstance(n, ast.Return) and n.value is not None]
         ok = any(isinstance(r.value, ast.BinOp) and isinstance(r.value.op, ast.Sub)
-                 and "time.time()" in ast.unparse(r.value.left)
+                 and clock_sources(model, pc.module, r.value.left, pc)
                  and A.dotted(r.value.right) == f"self.{attr}" for r in rets)
         if not ok:
             ctx.fail(cons, f.loc(), f"{prop} is not `now - self.{attr}`")
@@ -288,7 +291,7 @@ def run(ctx: Ctx):
                      "is closed by the watchdog")
     rl = pc.methods.get("reset_last_read")
     ctx.inst("PeerConnection.reset_last_read")
-    if rl is None or "time.time()" not in ast.unparse(rl.node) or "_last_read" not in ast.unparse(rl.node):
+    if rl is None or not clock_sources(model, pc.module, rl.node, pc) or "_last_read" not in ast.unparse(rl.node):
         ctx.fail("PeerConnection.reset_last_read", pc.loc(), "reset_last_read must store the current time in _last_read")
     hc = nc.methods.get("_handle_connections")
     gh = cfg_of(hc)
@@ -315,6 +318,13 @@ def run(ctx: Ctx):
     # else (e.g. a second CER / an unsolicited CEA) may store PEER_READY
     from .common_node import ready_state_stores
     ready_state_stores(ctx, "C11-R6")
+    from . import c06
+    ctx.include(c06.run, {"C06-R1"}, "C11-R8",
+                "in either ready sub-state every received message - a DWR while the own DWR is "
+                "outstanding included - reaches the node's dispatch (gate table of the connection)",
+                floor=9, constructs=lambda c: "gate(PEER_READY" in c)
+    clock_agreement(ctx, "C11-R7", {("node.peer", "PeerConnection", "_last_read"): ["last_read_since"],
+                                    ("node.peer", "PeerConnection", "_last_dwr"): ["dwa_wait_time"]})
 
 
 def _fmt(facts) -> str:
